@@ -171,35 +171,49 @@ Definition model_skel_targets (k : cmdkind) : list phase := [SendEach false k; R
 
 (* ---------- instance: scripted sub-environments in the workers ---------- *)
 Inductive scmd :=
-  | CmdStep (a : Z) | CmdReset (seed opt : option Z) | CmdGetAttr | CmdSetAttr (v : Z) | CmdEnvMethod (arg : Z) | CmdIsWrapped | CmdOther.
+  | CmdStep (a : Z) | CmdReset (seed opt : option Z) | CmdGetAttr | CmdSetAttr (v : Z) | CmdEnvMethod (arg : Z) | CmdIsWrapped | CmdOther
+  (* round 5: has_attr(name); env_method on a sub-environment method that creates (true) / deletes (false) the dynamic attribute and
+     returns whether it existed before; set_attr on an attribute that does not exist yet (creates it) *)
+  | CmdHasAttr (name : nat) | CmdDynMethod (create : bool) | CmdSetMade.
 Inductive sres :=
   | ResStep (out : Z * Z * bool * Z * bool * option Z) (ri : option Z)
   | ResReset (obs : Z) (ri : option Z)
   | ResAttr (v : Z) | ResNone | ResMethod (env_id : Z) (arg : Z) | ResBool (b : bool).
 (* worker-local variables: env, reset_info, plus the attribute the harness reads/writes and the env id *)
 (* ws_wrapped: the sub-environment is wrapped with the gym wrapper class asked for by env_is_wrapped *)
-Record wstate := mk_wstate { ws_env : senv; ws_ri : option Z; ws_attr : Z; ws_id : Z; ws_wrapped : bool }.
+(* ws_dyn / ws_made: the attribute created and deleted by the sub-environment's own methods / created by set_attr exists NOW *)
+Record wstate := mk_wstate { ws_env : senv; ws_ri : option Z; ws_attr : Z; ws_id : Z; ws_wrapped : bool; ws_dyn : bool; ws_made : bool }.
+
+(* attribute names of the harness: 0 = exists from the start (attr_value), 1 = never exists, 2 = created / deleted by env methods,
+   3 = created by set_attr; the worker's has_attr branch answers from the sub-environment as it is when the command is handled *)
+Definition attr_present (w : wstate) (name : nat) : bool :=
+  match name with 0 => true | 1 => false | 2 => ws_dyn w | 3 => ws_made w | _ => false end.
 
 Definition sworker_step (w : wstate) (c : scmd) : wstate * sres :=
   match c with
   | CmdStep a =>
       let '(e, ri, out, _) := sub_step sc_step sc_reset (ws_env w) (ws_ri w) a in
-      (mk_wstate e ri (ws_attr w) (ws_id w) (ws_wrapped w), ResStep (sout_tuple out) ri)
+      (mk_wstate e ri (ws_attr w) (ws_id w) (ws_wrapped w) (ws_dyn w) (ws_made w), ResStep (sout_tuple out) ri)
   | CmdReset seed opt =>
       let '(e, ri, obs, _) := sub_reset (A:=Z) sc_reset (ws_env w) seed opt in
-      (mk_wstate e ri (ws_attr w) (ws_id w) (ws_wrapped w), ResReset obs ri)
+      (mk_wstate e ri (ws_attr w) (ws_id w) (ws_wrapped w) (ws_dyn w) (ws_made w), ResReset obs ri)
   | CmdGetAttr => (w, ResAttr (ws_attr w))
-  | CmdSetAttr v => (mk_wstate (ws_env w) (ws_ri w) v (ws_id w) (ws_wrapped w), ResNone)
+  | CmdSetAttr v => (mk_wstate (ws_env w) (ws_ri w) v (ws_id w) (ws_wrapped w) (ws_dyn w) (ws_made w), ResNone)
   | CmdEnvMethod arg => (w, ResMethod (ws_id w) arg)
   | CmdIsWrapped => (w, ResBool (ws_wrapped w))
   | CmdOther => (w, ResNone)
+  | CmdHasAttr name => (w, ResBool (attr_present w name))
+  | CmdDynMethod b => (mk_wstate (ws_env w) (ws_ri w) (ws_attr w) (ws_id w) (ws_wrapped w) b (ws_made w), ResBool (ws_dyn w))
+  | CmdSetMade => (mk_wstate (ws_env w) (ws_ri w) (ws_attr w) (ws_id w) (ws_wrapped w) (ws_dyn w) true, ResNone)
   end.
 
 (* calls of the harness: VecEnv ops + attribute / method calls over index subsets *)
 Inductive call :=
   | KaReset | KaStep (acts : list Z) | KaSeed (s : Z) | KaSetOptions (os : list (option Z))
   | KaGetAttr (targets : list nat) | KaSetAttr (v : Z) (targets : list nat) | KaEnvMethod (arg : Z) (targets : list nat)
-  | KaIsWrapped (targets : list nat).
+  | KaIsWrapped (targets : list nat)
+  (* round 5: has_attr(name) asks ALL workers (no indices parameter); the attribute-changing calls take index subsets *)
+  | KaHasAttr (name : nat) | KaDynMethod (create : bool) (targets : list nat) | KaSetMade (targets : list nat).
 
 (* parent-side bookkeeping shared with DummyVecEnv (base class): pending seeds / options *)
 Fixpoint calls_prog (n : nat) (seeds opts : list (option Z)) (cs : list call) : list (instr scmd) :=
@@ -215,6 +229,9 @@ Fixpoint calls_prog (n : nat) (seeds opts : list (option Z)) (cs : list call) : 
   | KaSetAttr v ts :: r => skel_prog n ts (fun _ _ => CmdSetAttr v) (model_skel_targets KSetAttr) ++ calls_prog n seeds opts r
   | KaEnvMethod a ts :: r => skel_prog n ts (fun _ _ => CmdEnvMethod a) (model_skel_targets KEnvMethod) ++ calls_prog n seeds opts r
   | KaIsWrapped ts :: r => skel_prog n ts (fun _ _ => CmdIsWrapped) (model_skel_targets KIsWrapped) ++ calls_prog n seeds opts r
+  | KaHasAttr nm :: r => skel_prog n (seq 0 n) (fun _ _ => CmdHasAttr nm) (model_skel_targets KHasAttr) ++ calls_prog n seeds opts r
+  | KaDynMethod b ts :: r => skel_prog n ts (fun _ _ => CmdDynMethod b) (model_skel_targets KEnvMethod) ++ calls_prog n seeds opts r
+  | KaSetMade ts :: r => skel_prog n ts (fun _ _ => CmdSetMade) (model_skel_targets KSetAttr) ++ calls_prog n seeds opts r
   end.
 
 (* the same history as a list of method calls (targets, commands) *)
@@ -229,25 +246,39 @@ Fixpoint calls_methods (n : nat) (seeds opts : list (option Z)) (cs : list call)
   | KaSetAttr v ts :: r => (ts, fun _ => CmdSetAttr v) :: calls_methods n seeds opts r
   | KaEnvMethod a ts :: r => (ts, fun _ => CmdEnvMethod a) :: calls_methods n seeds opts r
   | KaIsWrapped ts :: r => (ts, fun _ => CmdIsWrapped) :: calls_methods n seeds opts r
+  | KaHasAttr nm :: r => (seq 0 n, fun _ => CmdHasAttr nm) :: calls_methods n seeds opts r
+  | KaDynMethod b ts :: r => (ts, fun _ => CmdDynMethod b) :: calls_methods n seeds opts r
+  | KaSetMade ts :: r => (ts, fun _ => CmdSetMade) :: calls_methods n seeds opts r
   end.
 (* legal calls: indices in range, one action / one options entry per sub-environment (a shorter action list is an
    illegal call: the real DummyVecEnv raises IndexError, the real SubprocVecEnv blocks - outside the property's quantifier) *)
 Definition call_targets_ok (n : nat) (c : call) : Prop :=
   match c with
-  | KaGetAttr ts | KaSetAttr _ ts | KaEnvMethod _ ts | KaIsWrapped ts => Forall (fun t => t < n) ts
+  | KaGetAttr ts | KaSetAttr _ ts | KaEnvMethod _ ts | KaIsWrapped ts | KaDynMethod _ ts | KaSetMade ts => Forall (fun t => t < n) ts
   | KaStep acts => length acts = n
   | KaSetOptions os => length os = n
   | _ => True
   end.
 
 Definition winit (scs : list script) : list wstate :=
-  map (fun '(i, sc) => mk_wstate (sc, cursor0) None 0%Z (Z.of_nat i) false) (combine (seq 0 (length scs)) scs).
+  map (fun '(i, sc) => mk_wstate (sc, cursor0) None 0%Z (Z.of_nat i) false false false) (combine (seq 0 (length scs)) scs).
 (* with per-env "is wrapped" flags (missing flags = not wrapped) *)
 Definition winitw (scs : list script) (flags : list bool) : list wstate :=
-  map (fun '(i, sc) => mk_wstate (sc, cursor0) None 0%Z (Z.of_nat i) (nth i flags false)) (combine (seq 0 (length scs)) scs).
+  map (fun '(i, sc) => mk_wstate (sc, cursor0) None 0%Z (Z.of_nat i) (nth i flags false) false false) (combine (seq 0 (length scs)) scs).
 (* the DummyVecEnv loop semantics of a whole history, evaluated directly *)
 Definition run_dummy_scripted (scs : list script) (flags : list bool) (cs : list call) : list (nat * sres) :=
   snd (dhistory sworker_step (winitw scs flags) (calls_methods (length scs) (repeat None (length scs)) (repeat None (length scs)) cs)).
+
+(* ---- round 5: the PUBLIC answer of has_attr ---- *)
+(* SubprocVecEnv.has_attr returns all([remote.recv() for remote in target_remotes]) *)
+Definition has_attr_answer (replies : list sres) : bool :=
+  forallb (fun r => match r with ResBool b => b | _ => false end) replies.
+(* DummyVecEnv.has_attr (base class: get_attr over all sub-environments raises AttributeError or not): the attribute exists in EVERY
+   sub-environment as it is NOW *)
+Definition dummy_has_attr (sts : list wstate) (name : nat) : bool := forallb (fun w => attr_present w name) sts.
+(* the sub-environment states after a history, by the DummyVecEnv loops *)
+Definition dummy_states (scs : list script) (flags : list bool) (cs : list call) : list wstate :=
+  fst (dhistory sworker_step (winitw scs flags) (calls_methods (length scs) (repeat None (length scs)) (repeat None (length scs)) cs)).
 
 (* a schedule given as a list of choices: choice k picks the (k mod m)-th of the m enabled actions
    (parent first, then workers by index); fuel bounds the run (a complete run takes one action per parent instruction plus one per command sent: at most 2 * length prog) *)
